@@ -288,8 +288,17 @@ def _roundtrip(ctx, mode):
                 ctx.fail(mode + '-roundtrip', [l, dl], o, exp, 'on build variant %s decrypt(encrypt(m)) does not return m (second op decrypts what the first produced on that variant)' % v, variant=v)
                 break
 
+def _aead_source(ctx, targets=('TJ.Props.C05Gen', 'TJ.Props.C02Gen')):
+    """TJ.Props.C02Gen: the terms REGENERATED from src/tinyjambu-{128,192,256}-aead.c and src/backend/tinyjambu-aead-common-*.c
+    (encrypt, setup, absorb, generate_tag, the permutations) write Spec.AEAD.encrypt and mlen + 8 for every input"""
+    import taint
+    ok, stats = taint.regenerate(ctx, targets)
+    ctx.extra_cov['minic'] = {k: stats.get(k) for k in ('functions', 'translated', 'errors', 'build_ok')}
+    if stats.get('errors'): ctx.broken_proofs.append('tools/c2lean.py cannot translate the current sources: ' + '; '.join(stats['errors'][:3]))
+    elif not ok: ctx.broken_proofs.append('TJ.Props.C02Gen / C05Gen (regenerated tinyjambu_*_aead_encrypt, _setup_*, _absorb_*, _generate_tag_*, _permutation_* = specification) no longer check: ' + re.sub(r'\s+', ' ', stats.get('build_log_tail', ''))[-600:])
+
 def check_C01(ctx):
-    ctx.lean(); ctx.build()
+    ctx.build(); _aead_source(ctx, ('TJ.Props.C02Gen',)); ctx.lean(extra_modules=['TJ.Props.C02Gen'])
     _roundtrip(ctx, 'aead')
     if ctx.tier == 'thorough': _matrix(ctx, 'aead')
 
@@ -302,7 +311,7 @@ def _matrix(ctx, mode):
     ctx.corr(mode + '.enc(matrix)', lines, vs + ['shared'], nontrivial=lambda i: nontrivial_aead(cases[i]))
 
 def check_C02(ctx):
-    ctx.build(); _perm_source(ctx); ctx.lean(extra_modules=['TJ.Props.C05Gen'])
+    ctx.build(); _aead_source(ctx); ctx.lean(extra_modules=['TJ.Props.C05Gen', 'TJ.Props.C02Gen'])
     ctx.equality_streams.update({'aead.enc': 'TJ.Props.C02.encrypt_is_spec', 'perm': 'TJ.Props.C02.permutation_is_nlfsr', 'aead.enc(matrix)': 'TJ.Props.C02.encrypt_is_spec'})
     _enc_phase(ctx, 'aead')
     _perm_stream(ctx)
